@@ -443,7 +443,12 @@ def run(chk, repo, tier):
                                                                   fn.module.name == 'ptype') or nm.split('.')[-1].endswith('ptype')
                          for nm in names]
                 none = [isinstance(x, ast.Constant) and x.value is None for x in (l, r)]
-                if any(is_pt) and not any(none):
+
+                def sentinel(x):
+                    # a module-level NAME = object(): a marker that is only ever compared by identity
+                    v_ = fn.module.globals.get(x.id) if isinstance(x, ast.Name) else None
+                    return isinstance(v_, ast.Call) and isinstance(v_.func, ast.Name) and v_.func.id == 'object' and not v_.args
+                if any(is_pt) and not any(none) and not any(sentinel(x) for x in (l, r)):
                     n_cmp += 1
                     if isinstance(op, (ast.Is, ast.IsNot)):
                         ident.append(f'{fn.key}: `{fn.module.segment(node)[:70]}` at {fn.loc(node)}')
